@@ -26,7 +26,8 @@ type Obligation struct {
 	Result *SolveResult
 	Extra  []string // extra lines local to this obligation (axiom instances etc.)
 	Keep   bool
-	ExtraFn func(rel map[string]bool) []string
+	ExtraFn func(rel map[string]bool, level int) []string
+	Levels  int // number of axiom-instance levels (1 = only level 0)
 }
 
 type VC struct {
@@ -42,6 +43,7 @@ type VC struct {
 	mu    sync.Mutex
 	linfo []*lineInfo
 	always map[int]bool
+	defs   map[string]T
 }
 
 var identSan = regexp.MustCompile(`[^A-Za-z0-9_]`)
@@ -68,8 +70,15 @@ func (v *VC) define(hint string, t T) T {
 	if isAtom(t.S) {
 		return t
 	}
+	if v.defs == nil {
+		v.defs = map[string]T{}
+	}
+	if old, ok := v.defs[t.S]; ok {
+		return old
+	}
 	n := v.fresh(hint, t.Sort)
 	v.emit(fmt.Sprintf("(assert (= %s %s))", n.S, t.S))
+	v.defs[t.S] = n
 	return n
 }
 
@@ -97,6 +106,18 @@ func (v *VC) assumeAlways(t T) {
 	}
 	v.always[len(v.lines)] = true
 	v.emit("(assert " + t.S + ")")
+}
+
+// markAlways keeps every non-declaration line emitted since index start in all slices.
+func (v *VC) markAlways(start int) {
+	if v.always == nil {
+		v.always = map[int]bool{}
+	}
+	for i := start; i < len(v.lines); i++ {
+		if !strings.HasPrefix(v.lines[i], "(declare-") {
+			v.always[i] = true
+		}
+	}
 }
 
 func (v *VC) comment(s string) {
@@ -227,6 +248,11 @@ func (o *Obligation) slice() ([]int, map[string]bool) {
 
 // SMT text for an obligation.
 func (o *Obligation) SMT(prelude string, produceModels bool) string {
+	return o.SMTLevel(prelude, produceModels, o.Levels-1)
+}
+
+// SMTLevel renders the obligation with the axiom instances of the given level (0 = narrowest).
+func (o *Obligation) SMTLevel(prelude string, produceModels bool, level int) string {
 	var sb strings.Builder
 	if produceModels {
 		sb.WriteString("(set-option :produce-models true)\n")
@@ -243,7 +269,7 @@ func (o *Obligation) SMT(prelude string, produceModels bool) string {
 		sb.WriteByte('\n')
 	}
 	if o.ExtraFn != nil {
-		for _, l := range o.ExtraFn(rel) {
+		for _, l := range o.ExtraFn(rel, level) {
 			sb.WriteString(l)
 			sb.WriteByte('\n')
 		}
